@@ -13,21 +13,27 @@ package main
 // happens-before edges of the library's own synchronisation.
 
 import (
+	"bufio"
 	"bytes"
 	"encoding/binary"
+	"encoding/json"
 	"fmt"
 	"image"
 	"io"
 	"os"
+	"os/exec"
 	"runtime"
+	"strconv"
 	"strings"
 	"sync"
+	"syscall"
 
 	"verif/mc"
 	"verif/obs"
 
 	"github.com/evanoberholster/imagemeta"
 	"github.com/evanoberholster/imagemeta/exif2"
+	"github.com/evanoberholster/imagemeta/imagehash"
 	"github.com/evanoberholster/imagemeta/imagetype"
 	"github.com/evanoberholster/imagemeta/isobmff"
 	"github.com/evanoberholster/imagemeta/jpeg"
@@ -44,16 +50,28 @@ type yieldReader struct {
 	chunk int
 }
 
+// c05NoYield turns the I/O yield points off (first-use driver: one process per execution, so few points)
+var c05NoYield bool
+
 func (y *yieldReader) Read(p []byte) (int, error) {
-	vsync.Yield()
+	if !c05NoYield {
+		vsync.Yield()
+	}
 	if y.chunk > 0 && len(p) > y.chunk {
 		p = p[:y.chunk]
 	}
 	return y.r.Read(p)
 }
-func (y *yieldReader) Seek(o int64, w int) (int64, error) { vsync.Yield(); return y.r.Seek(o, w) }
+func (y *yieldReader) Seek(o int64, w int) (int64, error) {
+	if !c05NoYield {
+		vsync.Yield()
+	}
+	return y.r.Seek(o, w)
+}
 func (y *yieldReader) ReadAt(p []byte, off int64) (int, error) {
-	vsync.Yield()
+	if !c05NoYield {
+		vsync.Yield()
+	}
 	return y.r.ReadAt(p, off)
 }
 
@@ -244,6 +262,151 @@ func c05InitPairs() {
 	c2 := contents(256, 16)
 	imgs2 := [2]image.Image{buildImage(kGray, 0, 256, c2[9]), buildImage(kRGBA, 0, 256, c2[len(c2)-2])}
 	add("NewPHash256Alt", func(w int) string { return hashOutcome(hashSizes[1].alt(imgs2[w])) })
+	add("NewPHash256", func(w int) string { return hashOutcome(hashSizes[1].primary(imgs2[w])) })
+	imgs3 := [2]image.Image{buildImage(kRGBA, 0, 64, cs[33]), buildImage(kYCbCr, 0, 64, cs[len(cs)-3])}
+	add("EncodeBlurHashFast", func(w int) string { s, err := imagehash.EncodeBlurHashFast(imgs3[w]); return s + "|" + errStr(err) })
+	add("NewAHash", func(w int) string {
+		h, err := imagehash.NewAHash(imgs3[w])
+		return fmt.Sprintf("%x|%s", uint64(h), errStr(err))
+	})
+}
+
+// ---- the first calls of a process ----
+//
+// State that the library builds lazily on first use (tables, caches, once-initialised globals) exists
+// only until the first call has run: a harness that computes its sequential reference first never sees
+// it being built.  Here every execution runs in a fresh child process: E(A) || E(B) are the first two
+// calls that process ever makes, under the parent's explorer (the child asks the parent for every
+// scheduling decision), and the sequential reference is computed in the child afterwards.
+
+type c05ChildResult struct {
+	Results  []string
+	After    []string
+	Panics   []string
+	Deadlock bool
+	Blocked  string
+	Points   int
+}
+
+func c05ChildMain(arg string) int {
+	v, _ := strconv.Atoi(arg)
+	runtime.GOMAXPROCS(1)
+	defaultLogger()
+	c05NoYield = true
+	c05InitPairs()
+	e := c05PairEntries[v]
+	res := c05ChildResult{Results: make([]string, 2), After: make([]string, 2), Panics: make([]string, 2)}
+	bodies := []func(){func() { res.Results[0] = e.run(0) }, func() { res.Results[1] = e.run(1) }}
+	in := bufio.NewReader(os.Stdin)
+	decide := func(kind string, n int, curEnabled bool, detail string) int {
+		fmt.Fprintf(os.Stdout, "D %s %d %v\n", kind, n, curEnabled)
+		line, err := in.ReadString('\n')
+		if err != nil {
+			os.Exit(3)
+		}
+		c, _ := strconv.Atoi(strings.TrimSpace(line))
+		return c
+	}
+	r := vsync.Run(bodies, decide)
+	res.Deadlock, res.Blocked, res.Points = r.Deadlock, r.Blocked, r.Points
+	for i := range r.Panics {
+		if r.Panics[i] != nil {
+			res.Panics[i] = fmt.Sprintf("%v\n%s", r.Panics[i], r.Stacks[i])
+		}
+	}
+	if !r.Deadlock {
+		for w := 0; w < 2; w++ {
+			w := w
+			if pi := mc.Guard(func() { res.After[w] = e.run(w) }); pi != nil {
+				res.After[w] = "PANIC " + pi.Signature()
+			}
+		}
+	}
+	b, _ := json.Marshal(res)
+	fmt.Fprintf(os.Stdout, "R %s\n", b)
+	return 0
+}
+
+func c05FirstUse(x *mc.Exec) {
+	c05InitPairs()
+	v := x.All("entry-point", len(c05PairEntries))
+	name := "H10-first-calls-of-a-process/" + c05PairEntries[v].name
+	exe, err := os.Executable()
+	if err != nil {
+		panic(mc.HarnessError{Msg: "c05: " + err.Error()})
+	}
+	cmd := exec.Command(exe, "c05child", strconv.Itoa(v))
+	cmd.SysProcAttr = &syscall.SysProcAttr{Pdeathsig: syscall.SIGKILL}
+	stdin, _ := cmd.StdinPipe()
+	stdout, _ := cmd.StdoutPipe()
+	var stderr bytes.Buffer
+	cmd.Stderr = &stderr
+	if err := cmd.Start(); err != nil {
+		panic(mc.HarnessError{Msg: "c05: cannot start child: " + err.Error()})
+	}
+	sc := bufio.NewScanner(stdout)
+	sc.Buffer(make([]byte, 1<<20), 1<<26)
+	var res *c05ChildResult
+	for sc.Scan() {
+		line := sc.Text()
+		switch {
+		case strings.HasPrefix(line, "D "):
+			var kind string
+			var n int
+			var cur bool
+			fmt.Sscanf(line[2:], "%s %d %t", &kind, &n, &cur)
+			c := 0
+			switch {
+			case kind == "sched" && cur:
+				c = x.Choose("sched", n)
+			case kind == "sched":
+				c = x.All("sched", n)
+			default:
+				c = x.Choose("pool-answer", n)
+			}
+			fmt.Fprintf(stdin, "%d\n", c)
+		case strings.HasPrefix(line, "R "):
+			res = &c05ChildResult{}
+			json.Unmarshal([]byte(line[2:]), res)
+		}
+	}
+	stdin.Close()
+	werr := cmd.Wait()
+	x.InputID = hashBytes([]byte(name + x.Devs().String()))
+	x.Note("driver", name)
+	det := map[string]string{"driver": name, "schedule": x.Devs().String(),
+		"what": "E(A) || E(B) as the first two calls a fresh process makes; the sequential reference is computed in that process afterwards"}
+	code := 0
+	if ee, ok := werr.(*exec.ExitError); ok {
+		code = ee.ExitCode()
+	} else if werr != nil {
+		code = -1
+	}
+	if code == 66 || strings.Contains(stderr.String(), "WARNING: DATA RACE") {
+		a, b, _ := mc.RaceSites(stderr.String())
+		det["report"] = truncStr(stderr.String(), 6000)
+		x.Fail("race|"+a+"|"+b, name+": data race between the first calls of a process", det)
+		x.Outcome = "race"
+		return
+	}
+	if code != 0 || res == nil {
+		det["stderr"] = truncStr(stderr.String(), 6000)
+		x.Fail("fatal|"+name, fmt.Sprintf("%s: the child process ended with status %d before reporting", name, code), det)
+		x.Outcome = "fatal"
+		return
+	}
+	x.Outcome = fmt.Sprintf("p%d", res.Points)
+	if res.Deadlock {
+		x.Fail("deadlock|"+name, name+": deadlock: "+res.Blocked, det)
+		return
+	}
+	for w := 0; w < 2; w++ {
+		if res.Panics[w] != "" {
+			x.Fail("panic|"+name+"|concurrent", fmt.Sprintf("%s: thread %d panicked: %s", name, w, truncStr(res.Panics[w], 1500)), det)
+		} else if res.Results[w] != res.After[w] {
+			x.Fail("concurrent-result-differs|"+name, fmt.Sprintf("%s: call %d returned %s ; the same call made afterwards, alone, returns %s", name, w, truncStr(res.Results[w], 400), truncStr(res.After[w], 400)), det)
+		}
+	}
 }
 
 var c05DriverCache []c05Driver
@@ -412,7 +575,11 @@ func init() {
 				sp = append(sp, mc.Space{Name: d.name, H: c05Harness(di), Bound: pb, Isolate: true, SplitDepth: 1,
 					Rule: d.what + fmt.Sprintf("; every schedule with <= %d preemptions and pool-answer deviations; oracles: deadlock, panic, each result equals its sequential result", pb)})
 			}
+			sp = append(sp, mc.Space{Name: "H10-first-calls-of-a-process", H: c05FirstUse, Bound: 1, Isolate: true, SplitDepth: 1,
+				Rule: "for each of 18 entry points E: E(A) || E(B) as the first two calls a fresh process makes (one child process per execution, scheduled by the parent's explorer; every schedule with <= 1 preemption or pool-answer deviation), the sequential reference computed in the same child afterwards: lazily built state must be built safely"})
 			if raceBin != "" {
+				sp = append(sp, mc.Space{Name: "H10-first-calls-of-a-process/race-detector", H: c05FirstUse, Bound: 0, Isolate: true, SplitDepth: 1, Binary: raceBin, Env: raceEnv,
+					Rule: "the same with the child built with -race: the detector judges the first calls of every fresh process (default schedule; its verdict on unsynchronised accesses does not depend on the schedule unless control flow does)"})
 				for di, d := range c05Get() {
 					sp = append(sp, mc.Space{Name: d.name + "/race-detector", H: c05Harness(di), Bound: rb, Isolate: true, SplitDepth: 1, Binary: raceBin, Env: raceEnv,
 						Rule: fmt.Sprintf("the same driver in the -race build: the race detector judges every schedule with <= %d preemptions (scheduler hand-offs are invisible to it)", rb)})
